@@ -236,7 +236,31 @@ func runC35(env *kernel.Env) {
 		if T.Bool(1, 3) {
 			k = T.Draw(nrows + 1)
 		}
-		switch T.Pick(6, 2, 2, 2, 2, 1, 3, 1, 1) {
+		switch T.Pick(6, 2, 2, 2, 2, 1, 3, 1, 1, 4) {
+		case 9:
+			// statement shapes that take the handler's special result paths (at most
+			// one row, no rows, no table) and combinations of them in set operations
+			id := T.Draw(nrows + 2)
+			shapes := []string{
+				"SELECT id, v, s FROM big WHERE id = %d",
+				"SELECT v FROM big WHERE id = %d UNION ALL SELECT 7",
+				"SELECT 7 UNION ALL SELECT v FROM big WHERE id = %d",
+				"SELECT v FROM big WHERE id = %d UNION SELECT v FROM big WHERE id < 4",
+				"(SELECT id FROM big WHERE id = %d) UNION ALL (SELECT id FROM big ORDER BY id LIMIT 3)",
+				"SELECT v FROM big WHERE id = %d UNION ALL SELECT 7 UNION ALL SELECT 8",
+				"SELECT id FROM big WHERE id = %d AND v < 0",
+				"SELECT id, v FROM big WHERE id < %d LIMIT 0",
+				"SELECT %d AS n, 'x' AS x, NULL AS z",
+				"SELECT id FROM big WHERE id IN (SELECT k FROM two WHERE k = %d)",
+				"SELECT (SELECT v FROM big WHERE id = %d) AS sq, 5 AS five",
+				"SELECT COUNT(*) FROM big WHERE id = %d",
+				"SELECT id, v FROM big WHERE id = %d OR id = 2 ORDER BY id",
+			}
+			sh := shapes[T.Draw(len(shapes))]
+			if T.Bool(1, 3) {
+				return &c35Op{kind: "shape-prepared", q: strings.Replace(sh, "%d", "?", 1), args: []driver.Value{int64(id)}, prepared: true}
+			}
+			return &c35Op{kind: "shape", q: fmt.Sprintf(sh, id)}
 		case 0:
 			return &c35Op{kind: "select-range", q: fmt.Sprintf("SELECT id, v, s FROM big WHERE id < %d ORDER BY id", k)}
 		case 1:
